@@ -35,6 +35,7 @@ struct KillGenOpts {
   bool bigNumbers = false; // sizes up to 2^62, Swap/MemTotal above 2^32
   bool fractionalArgs = false;
   double systemdP = 0.0;
+  double oomGroupFlipP = 0.0; // memory.oom.group rewritten between ticks
   double emptyOnFreezeP = 0.0; // kernelkill victims emptied at the freeze
   bool midTickEdits = false; // hook plans: cgroups re-created inside a tick
 };
@@ -397,6 +398,18 @@ inline Json::Value genKillPlan(Rng& rng, const KillGenOpts& o) {
       ops.append(op);
     }
   }
+  if (o.oomGroupFlipP > 0 && !wg.paths.empty())
+    for (int t = 1; t < ticks; t++)
+      if (rng.chance(o.oomGroupFlipP)) {
+        // memory.oom.group is a writable file: switched on or off between
+        // two ticks on a cgroup oomd has already looked at
+        Json::Value op(Json::objectValue);
+        op["t"] = t;
+        op["op"] = "set";
+        op["cg"] = rng.pick(wg.paths);
+        op["v"]["oom_group"] = rng.chance(0.5);
+        ops.append(op);
+      }
   plan["ops"] = ops;
   // kill outcomes
   Json::Value kill(Json::objectValue);
